@@ -213,6 +213,16 @@ def check_abort(case, ref, out, limits):
             r.append(f"altitude {alt0 + y} < {amin}")
         return r
 
+    def inside_first_step_from_violating_muzzle(row):
+        """the one situation in which a row can be beyond a limit although no integration point after the muzzle
+        is: the MUZZLE is already beyond that limit, the first integration point is not, and the record row is
+        interpolated between the two (limits are tested at integration points)"""
+        x = unhex(row[DIST]) / 12.0
+        if not rows or x > (case["step"] / 2.0) * (1 + 1e-9):
+            return False
+        kinds = lambda r: {t.split()[0] for t in r}
+        return bool(kinds(respects(rows[0], False)) & kinds(respects(row, interpolated(row))))
+
     def interpolated(row):
         x = unhex(row[DIST]) / 12.0
         if req_step_ft <= 0:
@@ -228,7 +238,8 @@ def check_abort(case, ref, out, limits):
         for i, row in enumerate(rows[1:], 1):
             r = respects(row, interpolated(row))
             if r:
-                bad.append(("rows.limit_violated_in_returned_trajectory", f"row {i}: {r}"))
+                bad.append(("rows.limit_violated_in_returned_trajectory" +
+                            ("|first_step" if inside_first_step_from_violating_muzzle(row) else ""), f"row {i}: {r}"))
                 break
         return bad
     # ---- RangeError
@@ -268,7 +279,8 @@ def check_abort(case, ref, out, limits):
     for i, row in enumerate(rows[1:-1], 1):
         r = respects(row, interpolated(row))
         if r:
-            bad.append(("rows.earlier_row_violates_limit", f"row {i} of {n}: {r}"))
+            bad.append(("rows.earlier_row_violates_limit" +
+                        ("|first_step" if inside_first_step_from_violating_muzzle(row) else ""), f"row {i} of {n}: {r}"))
             break
     return bad
 
@@ -364,6 +376,9 @@ def _sweep(case, only_limits=None):
 def _normalise_sig(v):
     # the mode label of a replayed single configuration is 'sweep'; original labels collapse to the same class
     s = dict(v["sig"])
+    if s.get("invariant", "").endswith("|first_step"):
+        s["invariant"] = s["invariant"][:-len("|first_step")]
+        s["row_inside_first_step_from_violating_muzzle"] = True
     if s.get("mode") not in ("reference",):
         s["mode"] = "sweep"
     v["sig"] = s
